@@ -61,7 +61,26 @@ def programs(check, tier, n=None):
                     for ver in progs.VERS[family][:1]:
                         out.append({"src": e["variants"][0]["src"], "ver": ver, "used": e["used"]})
         _gen_cache[key] = out
-    return clean_programs(tier, check) + [dict(p) for p in _gen_cache[key]]
+    return clean_programs(tier, check) + [dict(p) for p in _gen_cache[key]] + long_token_programs()
+
+
+def long_token_programs():
+    """valid programs whose single tokens are long (around and above the usual buffer sizes 256, 4096, 65536): string literals,
+    comments, doc comments, inline HTML, heredoc / nowdoc bodies, names, numbers"""
+    out = []
+    for n in (240, 300, 5000, 70000):
+        body = ("lorem ipsum %d " % n) * (n // 12 + 1)
+        body = body[:n]
+        parts = ["$a = '%s';" % body, '$b = "%s $a %s";' % (body[: n // 2], body[: n // 2]), "/* %s */ $c = 1;" % body, "/** %s */ function f%d() {}" % (body, n),
+                 "// %s\n$d = 2;" % body.replace("\n", " "), "echo <<<EOT\n%s $a\n%s\nEOT;\n" % (body[: n // 2], body[: n // 2]), "echo <<<'EOT'\n%s\nEOT;\n" % body]
+        if n <= 5000:
+            parts.append("$%s = %s;" % ("v" * n, "9" * n))
+        src = "<?php\n" + "\n".join(parts) + "\n?>" + body + "<?php $e = 3;\n"
+        for ver in ("7.4", "5.6"):
+            out.append({"src": src, "ver": ver})
+        for k, p in enumerate(parts):
+            out.append({"src": "<?php\n" + p + "\n", "ver": "7.4" if k % 2 else "5.6"})
+    return out
 
 
 def byte_programs():
